@@ -300,14 +300,18 @@ def instances(tier, seed):
     q = tier == 'quick'
     out = []
     Gs = (0, 1, 2) if q else (0, 1, 2, 3)
+    # (Powell overrides the generation counter and Finalize around its private energy history, which the counting stub does
+    #  not emulate: Powell is covered by limits-arithmetic and by the real/Powell and wrapper instances)
     for kind in ('NM', 'DE', 'DE2', 'Powell'):
+        out.append(Instance('limits-arithmetic/%s' % kind, limits_kernel(kind, 1)))
+        if kind == 'Powell':
+            continue
         for G in Gs:
             out.append(Instance('step-kernel/%s/gen=%d' % (kind, G), step_kernel(kind, G)))
-        out.append(Instance('limits-arithmetic/%s' % kind, limits_kernel(kind, 1)))
         for when in ((1, 2) if q else (0, 1, 2, 3)):
             out.append(Instance('exit-request/%s/after=%d' % (kind, when), exit_request(kind, when)))
     lim = (0, 1, 2) if q else (0, 1, 2, 3)
-    for kind in (('NM', 'DE') if q else ('NM', 'DE', 'DE2', 'Powell')):
+    for kind in (('NM', 'DE') if q else ('NM', 'DE', 'DE2')):
         for mi in lim + (None,):
             for mf in ((1, 3, None) if q else (0, 1, 2, 3, 5, None)):
                 if mi is None and mf is None:
